@@ -4,6 +4,7 @@ CONSTANTS
 INVARIANT ReRuleSound
 INVARIANT FirstSlashCloses
 INVARIANT LexAgrees
+INVARIANT CommentRule
 INVARIANT LexTotal
 INVARIANT EmitChunk
 CHECK_DEADLOCK FALSE
